@@ -207,6 +207,57 @@ fn run_expiry(server: SocketAddr, n: u32, idle: Duration) -> Result<Vec<String>,
     Ok(problems)
 }
 
+/// the reply records under the client's flow control (6.4: a record goes out whole or not at all): the client's stream window
+/// is `w` octets, so a reply of `big` payload octets may or may not fit; whatever the endpoint decides, the octets on the stream
+/// are whole records, the stream lives on, and the later small replies arrive once the client reads
+fn run_window(server: SocketAddr, n: u32, w: u64, big: usize) -> Result<Vec<String>, String> {
+    let to = Duration::from_secs(10);
+    let (p1, _log1) = echo_server();
+    let mut c = H3Conn::connect(server, &ClientOpts { src_ip: source_ip(n), windows: Some((1 << 20, w)), ..Default::default() }).map_err(|e| format!("handshake: {:?}", e))?;
+    c.body_keep = 1 << 16;
+    let sid = c.request(&request_headers("CONNECT", "_udp2", &[("user-agent", b"verif-harness")]), false)?;
+    c.hold.insert(sid);
+    if !c.run_until(to, |c| c.streams.get(&sid).map(|s| !s.heads.is_empty() || s.ended()).unwrap_or(false)) || c.stream(sid).status(0) != 200 {
+        return Err(format!("CONNECT _udp2 not answered 200 (status {})", c.stream(sid).status(0)));
+    }
+    let src = ([10u8, 0, 0, 1], 4001u16);
+    let dst = ([127u8, 0, 0, 1], p1);
+    let payload: Vec<u8> = (0..big).map(|i| b'a' + (i % 26) as u8).collect();
+    c.send_data(sid, &record_in(src, dst, "", &payload), false, Duration::from_secs(5))?;
+    // the reply meets the window while the client reads nothing
+    c.settle(Duration::from_millis(60), Duration::from_secs(2));
+    // now the client reads everything; three small datagrams follow
+    let mut want_small = vec![];
+    for k in 0..3u8 {
+        c.read_body(sid, usize::MAX);
+        let p = vec![b'0' + k; 5 + k as usize];
+        if c.send_data(sid, &record_in(src, dst, "", &p), false, Duration::from_secs(5)).is_err() { c.linger(Duration::from_millis(50)); break; } // (the stream is gone: judged below)
+        let mut r = p.clone(); r.reverse();
+        want_small.push(r);
+        let t0 = Instant::now();
+        while t0.elapsed() < Duration::from_millis(400) {
+            c.read_body(sid, usize::MAX);
+            c.linger(Duration::from_millis(10));
+            if c.stream(sid).ended() { break; }
+            if let Ok(rs) = parse_out(&c.stream(sid).body) { if rs.iter().filter(|x| x.2.len() < 20).count() > k as usize { break; } }
+        }
+    }
+    let s = c.stream(sid);
+    let mut problems = vec![];
+    if s.ended() || c.is_closed() || want_small.len() < 3 { problems.push(format!("the multiplexer stream ended (finished={} reset={:?}, connection closed: {}) after {} octets of replies", s.finished, s.reset, c.is_closed(), s.body.len())); }
+    match parse_out(&s.body) {
+        Err(e) => problems.push(format!("the reply stream is not a sequence of whole records: {}", e)),
+        Ok(rs) => {
+            let mut rev = payload.clone(); rev.reverse();
+            for r in &rs { if r.2.len() >= 20 && r.2 != rev { problems.push(format!("a reply record of {} payload octets is not the echo of the datagram sent", r.2.len())); } }
+            let small: Vec<Vec<u8>> = rs.iter().filter(|x| x.2.len() < 20).map(|x| x.2.clone()).collect();
+            if small != want_small && problems.is_empty() { problems.push(format!("{} of the 3 small replies sent after the client opened its window came back", small.len())); }
+        }
+    }
+    c.close();
+    Ok(problems)
+}
+
 fn main() {
     quiet_panics();
     install_logger();
@@ -243,6 +294,25 @@ fn main() {
                     let class = if p[0].contains("destination") { "routing" } else if p[0].contains("socket") { "sockets" } else if p[0].contains("ended") { "ended" } else { "replies" };
                     rep.violation_with(format!("udpmux-h3:{}", class), p.join("; "), || json!({"scenario": desc, "problems": p}));
                 }
+            }
+        }
+    }
+    // ---- reply records against the edge of the client's stream window
+    {
+        let big = 1000usize; // a reply record of 1040 octets; the response HEADERS frame shares the window
+        let (lo, hi) = if tier_thorough() { (1040u64, 1140u64) } else { (1060u64, 1100u64) };
+        for w in lo..=hi {
+            let desc = json!({"proto": "h3", "request": "CONNECT _udp2", "client_stream_window": w, "reply_record_octets": big + 40});
+            let d2 = desc.clone();
+            watchdog::enter(move || ("udpmux-h3:hang".into(), "scenario did not finish".into(), d2));
+            let r = catch(|| run_window(ep.addr, 600 + (w - lo) as u32, w, big)).unwrap_or_else(|p| Err(format!("client panic: {}", p)));
+            watchdog::leave();
+            rep.eval();
+            rep.nontrivial(format!("h3udp|window|{}", w));
+            match r {
+                Err(e) => rep.violation_with("udpmux-h3:setup", e, || desc.clone()),
+                Ok(p) if p.is_empty() => rep.count("window_edge_runs", 1),
+                Ok(p) => rep.violation_with(format!("udpmux-h3:window:{}", if p[0].contains("ended") { "ended" } else if p[0].contains("whole records") { "partial-record" } else { "replies" }), p.join("; "), || json!({"scenario": desc, "problems": p})),
             }
         }
     }
